@@ -723,6 +723,11 @@ def judge_c18(spec, gs, tbs, inputs, diags, dumps, maps, tdiffs, byk, jobs, info
     OPT = {0: (True, True), 1: (True, True), 3: (True, True), 4: (True, True), 7: (False, True), 8: (True, False), 9: (False, False)}
     for gi, g in enumerate(gs):
         C['grammars'] += 1
+        if tdiffs[gi] and not (gg.classify(tbs[gi]) in ('rr', 'acc') or diags[gi].has_rr):
+            # "everything else as for the generated lexer": the table over custom terms is the one the grammar and the declared precedences give
+            C['tables_compared_for_custom_terms'] += 1
+            viol(out, g, None, None, 'parse table of the grammar over custom terms differs from the reference: ' + '; '.join(tdiffs[gi][:3]), terms=[(t.text, t.prec, t.assoc) for t in g.terms])
+            continue
         if not parseable(gi, gs, tbs, diags, tdiffs, need_match=False): C['grammars_skipped'] += 1; continue
         tb = tbs[gi]
         for idx, data in enumerate(inputs[gi]):
